@@ -1,5 +1,6 @@
 """C01 - values and byte payloads arrive exactly as sent, at every size."""
 import json
+import os
 import random
 import time
 
@@ -83,6 +84,17 @@ def api_level(tier, violations, samples):
 
 def run(tier):
     res = fragcheck.campaign("C01", configs(tier), max_trace_cases=2000 if tier == "quick" else 20000)
+    # all lengths, at model level: Apalache discharges the inductive invariant of the fragment loop
+    import vlib
+    wd = os.path.join(vlib.OUT, "c01")
+    consts = fragcheck.code_constants([None])
+    arith = fragcheck.fit_arith(consts[None]) or {}
+    ok, note = fragcheck.apalache_inductive(wd, arith)
+    res["coverage"]["apalache_inductive_invariant"] = note
+    log("  apalache: " + note)
+    if not ok:
+        res["violations"].append({"what": "FragInd.tla: " + note, "key": "apalache",
+                                  "replay": write_replay("C01", "apalache", {"property": "C01", "note": note})})
     nv, nb, nd = api_level(tier, res["violations"], res["coverage"]["samples"])
     cov = res["coverage"]
     cov["api_values_roundtripped"] = nv
